@@ -117,7 +117,7 @@ def check(ctx):
             en = e['args'][3]
             ok = isinstance(en, tuple) and en[0] == 'vcomp' and en[1] == T.vempty() and \
                 en[3] == ZERO and en[4] == T.size(cw) and en[6] == en[2] and \
-                en[5] in (('!=', sel(cw, en[2]), ZERO), ('!=', ZERO, sel(cw, en[2])))
+                same_cond(en[5], ('!=', sel(cw, en[2]), ZERO))
             if ok:
                 ctx.holds('R4.enabled_channels', where, 'enabled_channels = {i : channel_weights[i] != 0} '
                           'in increasing order, complete')
